@@ -3,6 +3,7 @@ package c19
 import (
 	"bytes"
 	"fmt"
+	"io"
 	"testing"
 
 	"pgregory.net/rapid"
@@ -10,6 +11,7 @@ import (
 	"github.com/tink-crypto/tink-go/v2/aead"
 	"github.com/tink-crypto/tink-go/v2/daead"
 	"github.com/tink-crypto/tink-go/v2/hybrid"
+	"github.com/tink-crypto/tink-go/v2/key"
 	"github.com/tink-crypto/tink-go/v2/keyderivation"
 	"github.com/tink-crypto/tink-go/v2/keyset"
 	"github.com/tink-crypto/tink-go/v2/mac"
@@ -27,19 +29,118 @@ import (
 // the key generator produces (the per-class units above use a few templates plus the legacy
 // adapters): arguments live in arenas with spare capacity 0/1/7/64 (and 16..32 so that in-place
 // "append into the caller's slice" optimisations have room), results must not alias them.
+// badVersions: modified copies of a ciphertext / tag / signature for the failing paths: last, first
+// (output prefix), sixth (first byte behind a prefix) and middle byte changed - the same length as
+// the genuine value -, cut to half and to at most four bytes, and extended by one byte.
+func badVersions(b []byte) [][]byte {
+	return [][]byte{flipped(b, -1), flipped(b, 0), flipped(b, 5), flipped(b, len(b)/2), b[:len(b)/2], b[:min(len(b), 4)], extended(b)}
+}
+
+// weightedTypes: the key types of a class with equal weights, except SLH-DSA: one case with it
+// costs about three seconds (key generation and eight signatures; the "s" parameter sets need most
+// of a second per signature) against 10-70 ms for the other signature types. It gets a sixth of the
+// share of another type and is never the extra key of a two-key handle.
+func weightedTypes(c keys.Class, extraKey bool) []string {
+	var out []string
+	for _, t := range keys.Types(c) {
+		switch {
+		case t != "SlhDsa":
+			out = append(out, t, t, t, t, t, t)
+		case !extraKey:
+			out = append(out, t)
+		}
+	}
+	return out
+}
+
+// sameKeys compares the keys of two handles entry by entry (handles built separately may carry
+// different random key IDs for keys without ID requirement: the KEYS are compared, not keyset bytes).
+func sameKeys(a, b *keyset.Handle) bool { return sameKeyList(handleKeys(a), handleKeys(b)) }
+
+func handleKeys(h *keyset.Handle) []key.Key {
+	var out []key.Key
+	for i := 0; i < h.Len(); i++ {
+		e, err := h.Entry(i)
+		if err != nil {
+			return nil
+		}
+		out = append(out, e.Key())
+	}
+	return out
+}
+
+func sameKeyList(a, b []key.Key) bool {
+	if len(a) != len(b) || len(a) == 0 {
+		return false
+	}
+	for i := range a {
+		if !a[i].Equal(b[i]) {
+			return false
+		}
+	}
+	return true
+}
+
 func TestPrimitiveBuffersAllTypes(t *testing.T) {
-	classes := []keys.Class{keys.AEAD, keys.DAEAD, keys.MAC, keys.PRF, keys.Signature, keys.Hybrid, keys.Streaming, keys.Deriver}
+	var allWeighted []string
+	for _, c := range []keys.Class{keys.AEAD, keys.DAEAD, keys.MAC, keys.PRF, keys.Signature, keys.Hybrid, keys.Streaming, keys.Deriver} {
+		allWeighted = append(allWeighted, weightedTypes(c, false)...)
+	}
 	rapid.Check(t, func(rt *rapid.T) {
 		detrand.Seed(rapid.Uint64().Draw(rt, "entropy"))
-		c := rapid.SampledFrom(classes).Draw(rt, "class")
-		info := keys.DrawUsable(rt, "key", c)
+		// the key type with equal weights over ALL types of the eight classes (SLH-DSA apart, see
+		// weightedTypes), not class first: a class with one type would get six times the share of a type
+		// of a class with six
+		typ := gen.Pick(rt, "key_type", allWeighted)
+		c := keys.ClassOf(typ)
+		info := keys.DrawTypeUsable(rt, "key", typ)
 		if info.NoSerialization && c != keys.Signature {
+			evid.Add("skipped/not_serializable", 1)
 			rt.Skip("not serializable")
 		}
-		h, err := tk.HandleFromKey(info.Key)
-		if err != nil {
-			rt.Fatalf("%s: %v", info.Desc, err)
+		// One-key handle, or (classes whose wrapper tries several keys) a two-key handle: another key
+		// of the class FIRST - RAW in half of the cases - and the drawn key second, as the primary. With a
+		// RAW primary the wrapper's loop over the RAW keys reaches the matching key second; on the
+		// failing calls below it runs over the prefix-matching key and every RAW key.
+		keyList, shape := []key.Key{info.Key}, "1key"
+		desc := info.Desc
+		switch c {
+		case keys.AEAD, keys.DAEAD, keys.MAC, keys.Signature, keys.Hybrid, keys.Streaming:
+			if !gen.OneIn(rt, "two_keys", 2) {
+				break
+			}
+			other := keys.DrawTypeUsable(rt, "other_key", gen.Pick(rt, "other_key_type", weightedTypes(c, true)))
+			if gen.OneIn(rt, "other_raw", 2) || (other.HasID && info.HasID && other.ID == info.ID) {
+				o, ok := other.WithVariantID(tk.NoPrefix, 0)
+				if !ok {
+					evid.Add("two_keys_given_up/no_raw_variant", 1)
+					break
+				}
+				other = o
+			}
+			if other.NoSerialization && c != keys.Signature {
+				evid.Add("two_keys_given_up/not_serializable", 1)
+				break
+			}
+			keyList, shape = []key.Key{other.Key, info.Key}, "2keys("+other.Variant+"+"+info.Variant+")"
+			desc = info.Desc + " (second entry, primary) AFTER " + other.Desc
 		}
+		newHandle := func() *keyset.Handle {
+			m := keyset.NewManager()
+			var id uint32
+			for _, k := range keyList {
+				var err error
+				if id, err = m.AddKey(k); err != nil {
+					rt.Fatalf("%s: AddKey: %v", desc, err)
+				}
+			}
+			if err := m.SetPrimary(id); err != nil {
+				rt.Fatalf("%s: SetPrimary: %v", desc, err)
+			}
+			return tk.Must(m.Handle())
+		}
+		h := newHandle()
+		info = &keys.Info{Class: info.Class, Type: info.Type, Variant: info.Variant, Desc: desc, Key: info.Key, Public: info.Public}
 		p := &probe{t: rt, desc: info.Desc}
 		x := gen.Bytes(rt, "x", 200)
 		y := gen.BytesOrNil(rt, "y", 60)
@@ -58,6 +159,14 @@ func TestPrimitiveBuffersAllTypes(t *testing.T) {
 			}
 			p.verify("Decrypt")
 			p.out("Decrypt", "plaintext", got)
+			for i, bad := range badVersions(ct) {
+				_, err := a.Decrypt(p.in(fmt.Sprintf("modified ciphertext #%d", i), bad), p.in("associated data 3", y))
+				failing(err)
+				p.verify(fmt.Sprintf("Decrypt(modified ciphertext #%d)", i))
+			}
+			_, err = a.Decrypt(p.in("ciphertext 2", ct), p.in("other associated data", extended(y)))
+			failing(err)
+			p.verify("Decrypt(other associated data)")
 		case keys.DAEAD:
 			d := tk.Must(daead.New(h))
 			ct, err := d.EncryptDeterministically(p.in("plaintext", x), p.in("associated data", y))
@@ -72,6 +181,14 @@ func TestPrimitiveBuffersAllTypes(t *testing.T) {
 			}
 			p.verify("DecryptDeterministically")
 			p.out("DecryptDeterministically", "plaintext", got)
+			for i, bad := range badVersions(ct) {
+				_, err := d.DecryptDeterministically(p.in(fmt.Sprintf("modified ciphertext #%d", i), bad), p.in("associated data 3", y))
+				failing(err)
+				p.verify(fmt.Sprintf("DecryptDeterministically(modified ciphertext #%d)", i))
+			}
+			_, err = d.DecryptDeterministically(p.in("ciphertext 2", ct), p.in("other associated data", extended(y)))
+			failing(err)
+			p.verify("DecryptDeterministically(other associated data)")
 		case keys.MAC:
 			m := tk.Must(mac.New(h))
 			tag, err := m.ComputeMAC(p.in("message", x))
@@ -84,6 +201,12 @@ func TestPrimitiveBuffersAllTypes(t *testing.T) {
 				rt.Fatalf("%s: VerifyMAC: %v", info.Desc, err)
 			}
 			p.verify("VerifyMAC")
+			for i, bad := range badVersions(tag) {
+				failing(m.VerifyMAC(p.in(fmt.Sprintf("wrong tag #%d", i), bad), p.in("message 3", x)))
+				p.verify(fmt.Sprintf("VerifyMAC(wrong tag #%d)", i))
+			}
+			failing(m.VerifyMAC(p.in("tag 2", tag), p.in("other message", extended(x))))
+			p.verify("VerifyMAC(other message)")
 		case keys.PRF:
 			s := tk.Must(prf.NewPRFSet(h))
 			out, err := s.ComputePrimaryPRF(p.in("input", x), 16)
@@ -105,6 +228,12 @@ func TestPrimitiveBuffersAllTypes(t *testing.T) {
 				rt.Fatalf("%s: Verify: %v", info.Desc, err)
 			}
 			p.verify("Verify")
+			for i, bad := range badVersions(sig) {
+				failing(v.Verify(p.in(fmt.Sprintf("wrong signature #%d", i), bad), p.in("message 3", x)))
+				p.verify(fmt.Sprintf("Verify(wrong signature #%d)", i))
+			}
+			failing(v.Verify(p.in("signature 2", sig), p.in("other message", extended(x))))
+			p.verify("Verify(other message)")
 		case keys.Hybrid:
 			e := tk.Must(hybrid.NewHybridEncrypt(tk.Must(h.Public())))
 			d := tk.Must(hybrid.NewHybridDecrypt(h))
@@ -120,6 +249,14 @@ func TestPrimitiveBuffersAllTypes(t *testing.T) {
 			}
 			p.verify("Decrypt")
 			p.out("Decrypt", "plaintext", got)
+			for i, bad := range badVersions(ct) {
+				_, err := d.Decrypt(p.in(fmt.Sprintf("modified ciphertext #%d", i), bad), p.in("context info 3", y))
+				failing(err)
+				p.verify(fmt.Sprintf("Decrypt(modified ciphertext #%d)", i))
+			}
+			_, err = d.Decrypt(p.in("ciphertext 2", ct), p.in("other context info", extended(y)))
+			failing(err)
+			p.verify("Decrypt(other context info)")
 		case keys.Streaming:
 			sa := tk.Must(streamingaead.New(h))
 			var buf bytes.Buffer
@@ -146,10 +283,22 @@ func TestPrimitiveBuffersAllTypes(t *testing.T) {
 			p.verify("Read")
 		case keys.Deriver:
 			d := tk.Must(keyderivation.New(h))
-			if _, err := d.DeriveKeyset(p.in("salt", x)); err != nil {
+			saltIn := p.in("salt", x)
+			first, err := d.DeriveKeyset(saltIn)
+			if err != nil {
 				rt.Fatalf("%s: DeriveKeyset: %v", info.Desc, err)
 			}
 			p.verify("DeriveKeyset")
+			// the derived handle is a result of that call: it stays what it is when the caller overwrites
+			// the salt slice it passed (and equals what a pristine copy of the salt gives)
+			p.scribble()
+			again, err := tk.Must(keyderivation.New(newHandle())).DeriveKeyset(x)
+			if err != nil {
+				rt.Fatalf("%s: DeriveKeyset: %v", info.Desc, err)
+			}
+			if !sameKeys(first, again) {
+				rt.Fatalf("%s: the handle derived from salt %x changed (or differs from a fresh derivation with that salt) after the caller overwrote its salt slice", info.Desc, x)
+			}
 		}
 		// ---- the caller reuses its buffers: a second call on the SAME primitive object, with the same
 		// slices now holding other bytes, must give what a primitive built afresh gives for those bytes
@@ -165,7 +314,7 @@ func TestPrimitiveBuffersAllTypes(t *testing.T) {
 		stale := func(op string, err error) {
 			rt.Fatalf("%s: %s: after the caller overwrote its argument buffers in place and called again, the result is not the one for the new contents (an earlier argument was retained): %v", info.Desc, op, err)
 		}
-		h2 := tk.Must(tk.HandleFromKey(info.Key))
+		h2 := newHandle()
 		switch c {
 		case keys.AEAD:
 			a, fresh := tk.Must(aead.New(h)), tk.Must(aead.New(h2))
@@ -283,21 +432,6 @@ func TestPrimitiveBuffersAllTypes(t *testing.T) {
 			}
 		case keys.Deriver:
 			d, fresh := tk.Must(keyderivation.New(h)), tk.Must(keyderivation.New(h2))
-			// (the two one-key handles may carry different random key IDs for keys without ID
-			// requirement: the derived KEYS are compared, not the keyset bytes)
-			sameKeys := func(a, b *keyset.Handle) bool {
-				if a.Len() != b.Len() {
-					return false
-				}
-				for i := 0; i < a.Len(); i++ {
-					ea, err1 := a.Entry(i)
-					eb, err2 := b.Entry(i)
-					if err1 != nil || err2 != nil || !ea.Key().Equal(eb.Key()) {
-						return false
-					}
-				}
-				return true
-			}
 			if _, err := d.DeriveKeyset(xb); err != nil {
 				rt.Fatalf("%s: DeriveKeyset: %v", info.Desc, err)
 			}
@@ -321,6 +455,7 @@ func TestPrimitiveBuffersAllTypes(t *testing.T) {
 		if len(x3) == 0 {
 			x3 = []byte{0x5A}
 		}
+		var sigX, sigX3 []byte // genuine signatures of x and x3, kept for the consuming direction below
 		kept := func(op string, r1, saved []byte) {
 			if !bytes.Equal(r1, saved) {
 				rt.Fatalf("%s: %s: a result the caller kept changed when the same primitive was called again with another input:\n was %x\n now %x", info.Desc, op, saved, r1)
@@ -441,6 +576,7 @@ func TestPrimitiveBuffersAllTypes(t *testing.T) {
 			p.out("Sign", "signature (kept)", r1)
 			p.out("Sign", "signature (later)", r2)
 			kept("Sign", r1, s1)
+			sigX, sigX3 = s1, bytes.Clone(r2)
 			if err := v.Verify(r2, x3); err != nil {
 				rt.Fatalf("%s: Verify: %v", info.Desc, err)
 			}
@@ -507,25 +643,25 @@ func TestPrimitiveBuffersAllTypes(t *testing.T) {
 			if err != nil {
 				rt.Fatalf("%s: %v", info.Desc, err)
 			}
-			var got []byte
-			for i := 0; i < len(x)+4; i++ {
-				n := rapid.SampledFrom([]int{1, 7, 16, 64, 300}).Draw(rt, "read_size")
-				dst := p.in("read destination", make([]byte, n))
-				a := p.arenas[len(p.arenas)-1]
-				k, err := r.Read(dst)
-				if k < 0 || k > n {
-					rt.Fatalf("%s: Read into %d bytes returned n = %d", info.Desc, n, k)
-				}
-				// bytes inside dst[:len] are the reader's to write (io.Reader: all of p may be used as scratch)
-				copy(a.orig[guardLen:guardLen+n], a.buf[guardLen:guardLen+n])
-				p.verify("Read")
-				got = append(got, dst[:k]...)
-				if err != nil {
-					break
-				}
+			got, err := p.readStream("Read", r, len(x))
+			if err != io.EOF || !bytes.Equal(got, x) {
+				rt.Fatalf("%s: reading the stream in pieces into caller buffers gives %x and %v, want %x and io.EOF", info.Desc, got, err, x)
 			}
-			if !bytes.Equal(got, x) {
-				rt.Fatalf("%s: reading the stream in pieces into caller buffers gives %x, want %x", info.Desc, got, x)
+			// Read of a corrupted stream (one byte changed anywhere, or cut): the calls up to and
+			// including the failing one write inside dst[:len] only. (That they fail is C07's.)
+			stream := buf.Bytes()
+			bad := flipped(stream, rapid.IntRange(0, len(stream)-1).Draw(rt, "corrupt_at"))
+			if gen.OneIn(rt, "cut", 3) {
+				bad = stream[:rapid.IntRange(0, len(stream)-1).Draw(rt, "cut_at")]
+			}
+			if r, err := sa.NewDecryptingReader(bytes.NewReader(bad), p.in("aad 3", y)); err != nil {
+				failing(err)
+			} else {
+				_, err := p.readStream("Read(corrupted stream)", r, len(x))
+				if err == io.EOF {
+					evid.Add("observed_not_asserted/C07_corrupted_stream_read_to_clean_eof", 1)
+				}
+				failing(err)
 			}
 		case keys.Deriver:
 			// derived handles are results too: one derived earlier is not changed by a later derivation
@@ -543,6 +679,123 @@ func TestPrimitiveBuffersAllTypes(t *testing.T) {
 			}
 		}
 		p.verify("result retention calls")
-		finish(p, fmt.Sprintf("alltypes/%s/%s", c, info.Type), evid.NewH().S(info.Desc).B(x).B(y).Sum(), map[string]any{"key": info.Desc, "x_len": len(x), "y_len": len(y)})
+		// ---- the consuming direction through reused buffers: an object that has seen none of the values
+		// gets a genuine value in caller buffers, the caller refills the SAME buffers with another
+		// genuine value and calls again: each call gives what belongs to the buffer's contents at that
+		// call (what a primitive built afresh gives), and the earlier result keeps its bytes.
+		h3 := newHandle()
+		consumed := func(op string, err error) {
+			rt.Fatalf("%s: %s through caller buffers that held another genuine value at the previous call does not give the result for the present contents: %v", info.Desc, op, err)
+		}
+		slots := func(label string, a, b []byte) *arena { return p.slot(label, max(len(a), len(b))) }
+		switch c {
+		case keys.AEAD:
+			maker, a := tk.Must(aead.New(h2)), tk.Must(aead.New(h3))
+			c1, err1 := maker.Encrypt(x, y)
+			c2, err2 := maker.Encrypt(x3, y)
+			if err1 != nil || err2 != nil {
+				rt.Fatalf("%s: Encrypt: %v %v", info.Desc, err1, err2)
+			}
+			cs, ys := slots("ciphertext slot", c1, c2), p.in("associated data 4", y)
+			g1, err := a.Decrypt(p.fill(cs, c1), ys)
+			if err != nil || !bytes.Equal(g1, x) {
+				consumed("Decrypt (first value)", err)
+			}
+			p.verify("Decrypt")
+			s1 := bytes.Clone(g1)
+			g2, err := a.Decrypt(p.fill(cs, c2), ys)
+			if err != nil || !bytes.Equal(g2, x3) {
+				consumed("Decrypt", err)
+			}
+			p.verify("Decrypt")
+			p.out("Decrypt", "plaintext (first value)", g1)
+			p.out("Decrypt", "plaintext (second value)", g2)
+			kept("Decrypt", g1, s1)
+		case keys.DAEAD:
+			maker, d := tk.Must(daead.New(h2)), tk.Must(daead.New(h3))
+			c1, err1 := maker.EncryptDeterministically(x, y)
+			c2, err2 := maker.EncryptDeterministically(x3, y)
+			if err1 != nil || err2 != nil {
+				rt.Fatalf("%s: EncryptDeterministically: %v %v", info.Desc, err1, err2)
+			}
+			cs, ys := slots("ciphertext slot", c1, c2), p.in("associated data 4", y)
+			g1, err := d.DecryptDeterministically(p.fill(cs, c1), ys)
+			if err != nil || !bytes.Equal(g1, x) {
+				consumed("DecryptDeterministically (first value)", err)
+			}
+			p.verify("DecryptDeterministically")
+			s1 := bytes.Clone(g1)
+			g2, err := d.DecryptDeterministically(p.fill(cs, c2), ys)
+			if err != nil || !bytes.Equal(g2, x3) {
+				consumed("DecryptDeterministically", err)
+			}
+			p.verify("DecryptDeterministically")
+			p.out("DecryptDeterministically", "plaintext (first value)", g1)
+			p.out("DecryptDeterministically", "plaintext (second value)", g2)
+			kept("DecryptDeterministically", g1, s1)
+		case keys.MAC:
+			maker, m := tk.Must(mac.New(h2)), tk.Must(mac.New(h3))
+			t1, err1 := maker.ComputeMAC(x)
+			t2, err2 := maker.ComputeMAC(x3)
+			if err1 != nil || err2 != nil {
+				rt.Fatalf("%s: ComputeMAC: %v %v", info.Desc, err1, err2)
+			}
+			ts, ms := slots("tag slot", t1, t2), slots("message slot", x, x3)
+			if err := m.VerifyMAC(p.fill(ts, t1), p.fill(ms, x)); err != nil {
+				consumed("VerifyMAC (first value)", err)
+			}
+			p.verify("VerifyMAC")
+			if err := m.VerifyMAC(p.fill(ts, t2), p.fill(ms, x3)); err != nil {
+				consumed("VerifyMAC", err)
+			}
+			p.verify("VerifyMAC")
+			// the tag of the second message with the first message again: the verdict of a fresh object
+			got, want := m.VerifyMAC(p.fill(ts, t2), p.fill(ms, x)), maker.VerifyMAC(t2, x)
+			if (got == nil) != (want == nil) {
+				consumed("VerifyMAC (tag of one value, message of the other)", fmt.Errorf("got %v, a primitive that never saw these buffers gives %v", got, want))
+			}
+			p.verify("VerifyMAC")
+		case keys.Signature:
+			// (the two signatures made above: signing anew would double the cost of the expensive types)
+			ref, v := tk.Must(signature.NewVerifier(tk.Must(h2.Public()))), tk.Must(signature.NewVerifier(tk.Must(h3.Public())))
+			g1, g2 := sigX, sigX3
+			ss, ms := slots("signature slot", g1, g2), slots("message slot", x, x3)
+			if err := v.Verify(p.fill(ss, g1), p.fill(ms, x)); err != nil {
+				consumed("Verify (first value)", err)
+			}
+			p.verify("Verify")
+			if err := v.Verify(p.fill(ss, g2), p.fill(ms, x3)); err != nil {
+				consumed("Verify", err)
+			}
+			p.verify("Verify")
+			got, want := v.Verify(p.fill(ss, g2), p.fill(ms, x)), ref.Verify(g2, x)
+			if (got == nil) != (want == nil) {
+				consumed("Verify (signature of one value, message of the other)", fmt.Errorf("got %v, a primitive that never saw these buffers gives %v", got, want))
+			}
+			p.verify("Verify")
+		case keys.Hybrid:
+			e, d := tk.Must(hybrid.NewHybridEncrypt(tk.Must(h2.Public()))), tk.Must(hybrid.NewHybridDecrypt(h3))
+			c1, err1 := e.Encrypt(x, y)
+			c2, err2 := e.Encrypt(x3, y)
+			if err1 != nil || err2 != nil {
+				rt.Fatalf("%s: Encrypt: %v %v", info.Desc, err1, err2)
+			}
+			cs, ys := slots("ciphertext slot", c1, c2), p.in("context info 4", y)
+			g1, err := d.Decrypt(p.fill(cs, c1), ys)
+			if err != nil || !bytes.Equal(g1, x) {
+				consumed("Decrypt (first value)", err)
+			}
+			p.verify("Decrypt")
+			s1 := bytes.Clone(g1)
+			g2, err := d.Decrypt(p.fill(cs, c2), ys)
+			if err != nil || !bytes.Equal(g2, x3) {
+				consumed("Decrypt", err)
+			}
+			p.verify("Decrypt")
+			p.out("Decrypt", "plaintext (first value)", g1)
+			p.out("Decrypt", "plaintext (second value)", g2)
+			kept("Decrypt", g1, s1)
+		}
+		finish(p, fmt.Sprintf("alltypes/%s/%s/%s/%s", c, info.Type, info.Variant, shape), evid.NewH().S(info.Desc).B(x).B(y).Sum(), map[string]any{"key": info.Desc, "x_len": len(x), "y_len": len(y)})
 	})
 }
